@@ -796,7 +796,12 @@ def cook_objective_scaler(scaler, base_estimator):
         inverse_func=lambda x: x,
         check_inverse=False,
     )
-    pipeline = make_pipeline(rounding, QuantileTransformer(output_distribution="uniform"))
+    # The transformer estimates the quantiles from a random subsample once it is fitted on more
+    # than ``subsample`` (10_000) objectives. Without a ``random_state`` that subsample is drawn
+    # from the global NumPy generator, i.e., a seeded search would stop being reproducible.
+    pipeline = make_pipeline(
+        rounding, QuantileTransformer(output_distribution="uniform", random_state=0)
+    )
     scalers["quantile-uniform"] = pipeline
 
     if scaler == "auto":
